@@ -255,7 +255,9 @@ fn corpus(thorough: bool) -> Vec<Case> {
         v.extend_from_slice(b"\r\n");
         cs.push(over("big-headers-90", vec![Seg::Raw(v)]));
     }
-    cs.push(over("oversize-header-430000", vec![Seg::Raw(b"GET /health HTTP/1.1\r\nconnection: close\r\nx-big: ".to_vec()), Seg::Rep(b'v', 430000), Seg::Raw(b"\r\n\r\n".to_vec())]));
+    cs.push(over("oversize-header-900000", vec![Seg::Raw(b"GET /health HTTP/1.1\r\nconnection: close\r\nx-big: ".to_vec()), Seg::Rep(b'v', 900000), Seg::Raw(b"\r\n\r\n".to_vec())]));
+    // between hyper's buffer limit and twice that: accepted or 431 depending on how the reads fall
+    cs.push(over("gray-header-430000", vec![Seg::Raw(b"GET /health HTTP/1.1\r\nconnection: close\r\nx-big: ".to_vec()), Seg::Rep(b'v', 430000), Seg::Raw(b"\r\n\r\n".to_vec())]));
     cs.push(over("big-header-100000", vec![Seg::Raw(b"GET /health HTTP/1.1\r\nconnection: close\r\nx-big: ".to_vec()), Seg::Rep(b'v', 100000), Seg::Raw(b"\r\n\r\n".to_vec())]));
     for n in [1024usize, 1025, 2000, 100000] {
         let kind = if n <= 1024 { "big-body-cl".to_string() } else { format!("oversize-body-cl-{}", n) };
@@ -460,7 +462,7 @@ fn main() {
     let mut jobs: Vec<(String, HandlerTaskMode, Vec<Item>, usize)> = Vec::new();
     // 1. the whole corpus plus random byte strings against ONE long-lived server per mode,
     //    valid requests and panics sprinkled in
-    let n_rand = if thorough { 6000 } else { 600 };
+    let n_rand = if thorough { 20000 } else { 2500 };
     for &m in &modes {
         let mut items: Vec<Item> = Vec::new();
         for c in &cs {
@@ -487,7 +489,7 @@ fn main() {
         jobs.push((format!("L{}", mode_name(m)), m, mixed, 6));
     }
     // 2. sequences of 1..50 faulty connections interleaved with valid ones
-    let n_seq = if thorough { 400 } else { 60 };
+    let n_seq = if thorough { 1000 } else { 120 };
     let small: Vec<Case> = cs.iter().filter(|c| c.sent.bytes().len() < 4000).cloned().collect();
     for i in 0..n_seq {
         let m = modes[i % 2];
